@@ -36,7 +36,9 @@ ISI_CONFIGS = ["tas_detr", "tas_nodetr", "tas_ks", "tas_nosigtest", "tas_npqm", 
 CDFT_PAIRS = [("linear_interpolation", "linear"), ("step_function", "inverted_cdf"), ("linear_interpolation", "hazen"),
               ("step_function", "closest_observation"), ("linear_interpolation", "averaged_inverted_cdf"),
               ("step_function", "weibull"), ("linear_interpolation", "median_unbiased"), ("step_function", "normal_unbiased"),
-              ("linear_interpolation", "interpolated_inverted_cdf")]
+              ("linear_interpolation", "interpolated_inverted_cdf"),
+              # histogram ecdf: theorem under the oracle law "np.histogram's bins shift with the data" (Props.C02.cdft_hist_shift)
+              ("kernel_density", "linear"), ("kernel_density", "inverted_cdf")]
 
 
 # ------------------------------------------------------------------ configurations of the real debiasers
@@ -301,6 +303,29 @@ def isimip_trend_oracle(rng, n_cases, res, problems):
                                      f"(max deviation {dev2:.3g})", {**case, "what": "isimip-linear-trend", "b": b}))
 
 
+def ecdfm_beta_note(rng):
+    """informational (never a verdict): ECDFM's *default* family for tas is scipy.stats.beta, fitted by numerical maximum
+    likelihood; the fit of a shifted sample is the shifted fit only up to the optimiser's tolerance, so the shift passes through
+    to ~1e-5 instead of rounding error.  LocScaleLaws are an assumption for scipy's families (trusted base)."""
+    from ibicus.debias import ECDFM
+
+    nprs = np.random.RandomState(rng.randint(0, 2**31 - 1))
+    dO = probes.dates_from(datetime.date(1980, 1, 1), 365 * 3)
+    dF = probes.dates_from(datetime.date(2040, 1, 1), 365 * 3)
+    o, h, f = probes.tas_like(nprs, dO, 283, 3), probes.tas_like(nprs, dO, 285, 4), probes.tas_like(nprs, dF, 287, 4)
+    out = {}
+    try:
+        with warnings.catch_warnings(), np.errstate(all="ignore"):
+            warnings.simplefilter("ignore")
+            a = ECDFM.from_variable("tas").apply_location(o, h, f, dO, dO, dF)
+            for c in (0.5, 3.0, 1e3):
+                b = ECDFM.from_variable("tas").apply_location(o, h, f + c, dO, dO, dF)
+                out[str(c)] = float(np.nanmax(np.abs(b - a - c)))
+    except Exception as ex:  # noqa: BLE001
+        out["error"] = f"{type(ex).__name__}: {str(ex)[:100]}"
+    return {"max_abs_deviation_by_shift": out, "note": "numerical MLE (4-parameter beta): approximate, not part of the verdict"}
+
+
 def run(tier, res, force_search=False):
     rng = random.Random(C.seed() * 104729 + 2)
     res.rule = ("cases = (configuration, window mode, year-window mode, ecdf/iecdf pair, shift c / factor k, stationary|trending, explicit|inferred "
@@ -353,6 +378,8 @@ def run(tier, res, force_search=False):
     problems = []
     oracle(rng, n_or, res, problems)
     isimip_trend_oracle(rng, n_or // 3, res, problems)
+    if not quick:
+        res.extra["ecdfm_default_beta_fit"] = ecdfm_beta_note(rng)
 
     # the evidence samples: the oracle's cases first (the correspondences fill the first slots otherwise)
     res.cov["samples"] = res.extra["oracle_samples"][:4] + res.cov["samples"][:2]
